@@ -136,7 +136,7 @@ def eff_noise(ctx) -> None:
                     raise AnalysisError(f"BASIS: unrecognised basis-change idiom at {e.loc()}: "
                                         f"{show(e.target[1])} = {show(e.value)[:80]}")
                 ok = kind == "full" or (kind == "corner2x2" and dim_pinned)
-                ctx.ob("BASIS", f"eff_noise ising|{util.akey(e.node, e.func, 70)}", e.loc(), ok,
+                ctx.ob("BASIS", f"eff_noise ising|basis change: {kind}" + ("" if ok else ", number of levels not pinned to 2"), e.loc(), ok,
                        "the Pulser→emulator basis change (r↔g) covers every row and column touching levels 0/1"
                        if ok else
                        "the basis change flips only the [:2, :2] block while dim may be 3: entries [2,0],[2,1],[0,2],"
